@@ -26,6 +26,9 @@ EXTRA_FILES = {
     'include/unifex/v1/debug_async_scope.hpp': ['C08'], 'include/unifex/v2/debug_async_scope.hpp': ['C08'],
     'include/unifex/then_execute.hpp': ['C05'], 'include/unifex/sender_for.hpp': ['C12'], 'include/unifex/scope_guard.hpp': ['C02'],
     'source/exception.cpp': ['C05'],
+    # C06's statement names these contexts (FIFO order, no lost item) although its anchor list omits their files
+    'include/unifex/timed_single_thread_context.hpp': ['C06'], 'source/timed_single_thread_context.cpp': ['C06'],
+    'include/unifex/thread_unsafe_event_loop.hpp': ['C06'], 'source/thread_unsafe_event_loop.cpp': ['C06'],
 }
 TRIVIAL = {'move', 'forward', 'addressof', 'get', 'as_const', 'declval', 'operator*', 'operator->', 'static_cast', 'size', 'begin', 'end',
            'operator()', 'operator bool', 'get_stop_token', 'get_scheduler', 'get_allocator'}
@@ -142,15 +145,20 @@ def effect(e):
         q = e['callee'].get('qname')
         if q in TERMQ: return 'complete:' + TERMQ[q]
         nm = (e['callee'].get('name') or '').split('::')[-1]
-        if not nm or nm in TRIVIAL or nm.startswith('<'): return None
+        if not nm or nm in TRIVIAL or nm.startswith(('<', 'operator')): return None      # operators (comparisons, conversions) are not effects
         return 'call:' + nm
     if k == 'assign':
-        lf = last_field(e.get('lhs') or '')
+        lhs = e.get('lhs') or ''
+        lf = last_field(lhs)
         if not lf: return None
+        if '.' not in lhs and not lf.endswith('_'): return None          # assignment to a local: its name is free
         rhs = e.get('rhs') or {}
         v = rhs.get('p') if rhs.get('op') == 'path' and (rhs.get('p') or '').startswith('#') else None
         return 'set:%s%s' % (lf, '=' + v if v else '')
-    if k == 'incdec': return 'incdec:' + last_field(e.get('lhs') or '')
+    if k == 'incdec':
+        lhs = e.get('lhs') or ''
+        if '.' not in lhs and not lhs.endswith('_'): return None
+        return 'incdec:' + last_field(lhs)
     if k == 'ret':
         v = e.get('v') or {}
         if v.get('op') == 'path' and (v.get('p') or '').startswith('#'): return 'ret:' + v['p']
@@ -184,6 +192,29 @@ def branches(f):
         if not pos: et, ef = ef, et
         if et or ef: out.append((atom, et, ef, e.get('line') or G.line(t)))
     return out
+
+
+def all_atoms(F):
+    """{(file, fn): set of canonical atoms of every branch condition (with or without distinguishable effects)}"""
+    out = collections.defaultdict(set)
+    for f in F.funcs:
+        if not f.get('blocks'): continue
+        env = atom_env(f)
+        fn = norm_fn(f['qname'])
+        for b in f['blocks']:
+            t = b.get('term')
+            if not t or t.get('cond') is None: continue
+            if (t.get('macro') or '').startswith(('UNIFEX_ASSERT', 'assert')): continue
+            a, _ = canon(t['cond'], env)
+            if a in ('#true', '#false', '?') or len(a) > 300: continue
+            out[(f['file'], fn)].add(a)
+    return out
+
+
+def _shape(a):
+    """atom with relational operators and literal constants abstracted"""
+    a = re.sub(r' (<=|>=|<|>|==|!=) ', ' REL ', a)
+    return re.sub(r'#-?\w+', '#K', a)
 
 
 def table_of(F):
@@ -253,6 +284,24 @@ def _check(run, F, prop, fp):
                                   'the test `%s` in %s was replaced by `%s`, which now decides exactly the same effects (%s / %s): a different predicate, constant or comparison guards this step of the protocol' % (
                                       r['atom'][:120], r['fn'].split('::')[-1], a[:120], sorted(T)[:4], sorted(Fs)[:4]))
                     break
+    # a comparison whose operands are unchanged but whose relational operator or literal changed (`<=` -> `<`, `== 1` -> `== 0`)
+    with open(TABLE) as fh: arows = json.load(fh).get('atoms', [])
+    cur_atoms = None
+    for ar in arows:
+        if prop not in fp.get(ar['file'], ()) or (ar.get('configs') and F.config not in ar['configs']): continue
+        if cur_atoms is None: cur_atoms = all_atoms(F)
+        have = cur_atoms.get((ar['file'], ar['fn']))
+        if have is None: continue
+        frozen = set(ar['atoms'])
+        gone = frozen - have; new = have - frozen
+        if not gone or not new: continue
+        run.inst('%s %s' % (ar['file'], ar['fn']), 'comparisons keep their operator and constant', key=(ar['fn'], 'cmp'))
+        for a in sorted(gone):
+            for b in sorted(new):
+                if a != b and _shape(a) == _shape(b) and ' REL ' in _shape(a) or (a != b and _shape(a) == _shape(b) and '#K' in _shape(a)):
+                    run.violation(ar['fn'], 'comparison-changed:' + a[:100], '%s:1' % ar['file'],
+                                  'in %s the test `%s` became `%s`: same operands, different relational operator or constant (a boundary, tie-break or expected value of the protocol changed)' % (ar['fn'].split('::')[-1], a[:140], b[:140]))
+                    break
     if applicable and found < 0.6 * applicable:
         run.broke('only %d of %d frozen branch keys of %s exist in the tree: tables/polarity.json no longer describes it (re-freeze after review)' % (found, applicable, prop))
 
@@ -261,7 +310,7 @@ def _mk(prop, floor, fp):
     rid = 'R-POLARITY-' + prop
     @rule(rid, [prop], floor=floor)
     def r(run, F, prop=prop): _check(run, F, prop, fp)
-    r.__doc__ = 'for every two-way branch in the files anchored by %s whose sides have distinguishable effects (calls, member writes, constant returns, completions, throws), each effect happens on the same outcome of the same canonical test as frozen in tables/polarity.json: no condition is inverted, no ==/!= or then/else swapped, no negation dropped, and no test is replaced by a different test deciding exactly the same effects (locals and parameters are renamed canonically, x==nullptr/0/false reads as !x; moved, added, removed or renamed effects are silent)' % prop
+    r.__doc__ = 'for every two-way branch in the files anchored by %s whose sides have distinguishable effects (calls, member writes, constant returns, completions, throws), each effect happens on the same outcome of the same canonical test as frozen in tables/polarity.json: no condition is inverted, no ==/!= or then/else swapped, no negation dropped, no test is replaced by a different test deciding exactly the same effects, and no comparison keeps its operands while changing its relational operator or literal (`<=` to `<`, `== 1` to `== 0`) (locals and parameters are renamed canonically, x==nullptr/0/false reads as !x; moved, added, removed or renamed effects are silent)' % prop
     from .. import core
     core.RULES[rid]['doc'] = r.__doc__
 
@@ -299,8 +348,14 @@ def freeze():
     for (file, fn, atom), m in sorted(merged.items()):
         if not m['T'] and not m['F']: continue
         rows.append(dict(file=file, fn=fn, atom=atom, T=sorted(m['T']), F=sorted(m['F']), configs=m['configs']))
+    am = {}
+    for c in cfgs:
+        for k, atoms in all_atoms(Facts(files[c], c)).items():
+            m = am.setdefault(k, dict(atoms=set(), configs=[]))
+            m['atoms'] |= atoms; m['configs'].append(c)
+    arows = [dict(file=k[0], fn=k[1], atoms=sorted(m['atoms']), configs=m['configs']) for k, m in sorted(am.items()) if m['atoms']]
     with open(TABLE, 'w') as fh:
-        json.dump(dict(_doc='frozen branch polarity table; see usa/rules/polarity.py', rows=rows), fh, indent=0)
+        json.dump(dict(_doc='frozen branch polarity table; see usa/rules/polarity.py', rows=rows, atoms=arows), fh, indent=0)
     fp = file_props()
     print(len(rows), 'rows;', 'unowned files:', sorted({r['file'] for r in rows if not fp.get(r['file'])}))
 
